@@ -115,6 +115,7 @@ def wire(F, res):
                         if cc and "str" in cc:
                             reader.add(cc["str"])
         writer = wvars | wfields
+        WIRE_NAMES.update(writer)
         if a["is_enum"]:
             names = {v["name"] for v in a["variants"]}
             fnames = {fd["name"] for v in a["variants"] for fd in v["fields"] if not fd["name"].isdigit()}
@@ -276,6 +277,51 @@ def handcode(F, res):
             res.add([assumption("HANDCODE", "%s|hand-written codec code" % b, where(g) if g else "crates/tx3-tir/src", "hand-written code on the wire path (%s): writer/reader agreement for it is not covered by the derive argument (not decided)" % why)])
 
 
+WIRE_NAMES = set()   # every field / variant name the derived writers emit (filled by wire())
+
+
+def scratch_buffer(F, res, cg, roots):
+    """SCRATCH: ciborium reads map keys and enum variant names into its scratch buffer and rejects any that do not fit.  When
+    the decoder is handed an explicit buffer (`from_reader_with_buffer`, `Deserializer::from_reader(.., &mut buf)`), its size -
+    read from the array type - must hold the longest name the derived writers emit (from the WIRE tables); the library default
+    (4096) does.  Otherwise a valid encoding that contains the long name no longer decodes."""
+    longest = max(WIRE_NAMES, key=len) if WIRE_NAMES else ""
+    n = 0
+    for p in sorted(cg.reachable(roots)):
+        f = F.fns[p]
+        if not f["crate"].startswith("tx3"):
+            continue
+        du = None
+        for bi, t in mir.calls(f):
+            c = t.get("callee") or ""
+            if not ((c.startswith("ciborium::") and "with_buffer" in c) or c.startswith("ciborium::de::Deserializer") and c.endswith("from_reader")):
+                continue
+            if len(t["args"]) < 2:
+                continue
+            du = du or mir.DefUse(f)
+            n += 1
+            size = None
+            for o in mir.provenance(f, du, t["args"][-1], transparent_extra=("std::ops::DerefMut::deref_mut", "core::array::<impl std::ops::IndexMut<I> for [T; N]>::index_mut")):
+                ty = f["locals"][o.local] if o.kind in ("local", "arg") and o.local is not None else ""
+                m = re.search(r"\[u8; (\d+)\]", ty)
+                if m:
+                    size = int(m.group(1)) if size is None else min(size, int(m.group(1)))
+            if size is None:
+                for ty in f["locals"]:
+                    m = re.fullmatch(r"\[u8; (\d+)\]", ty)
+                    if m:
+                        size = int(m.group(1)) if size is None else min(size, int(m.group(1)))
+            key = "%s|scratch buffer of the decoder" % p
+            if size is None:
+                res.add([assumption("SCRATCH", key, where(f, t["line"]), "the decoder is given an explicit scratch buffer whose size could not be read: not decided")])
+            elif size >= len(longest):
+                res.add([ok("SCRATCH", key, where(f, t["line"]), "%d bytes hold the longest wire name (%s, %d bytes)" % (size, longest, len(longest)))])
+            else:
+                res.add([finding("SCRATCH", key, where(f, t["line"]), "the decoder's scratch buffer has %d bytes but the writers emit the name `%s` (%d bytes): ciborium rejects names that do not fit, so a valid encoding containing it no longer decodes" % (size, longest, len(longest)))])
+    if n == 0:
+        res.add([ok("SCRATCH", "tx3 decoding closure|library default scratch buffer", "crates/tx3-tir/src/encoding.rs", "no explicit scratch buffer: ciborium::from_reader's 4096 bytes hold the longest wire name (%s)" % longest)])
+
+
 def depth_limit(F, res, cg, roots):
     """DEPTH: decoding keeps the library's bounded recursion.  `ciborium::from_reader` stops at 256 levels and reports an error;
     a `from_reader_with_recursion_limit` whose limit is not a small literal (e.g. the input length) never fires, so a nesting
@@ -332,5 +378,7 @@ def run(ctx):
              "<tx3_tir::encoding::TirVersion as std::convert::TryFrom<&str>>::try_from"]
     c12.panic_obligations(F, res, roots, rows, cg=cg)
     depth_limit(F, res, cg, roots)
+    res.rule("SCRATCH", "an explicit scratch buffer of the decoder holds the longest field / variant name of the wire tables")
+    scratch_buffer(F, res, cg, roots)
     res.add([assumption("DEP", "ciborium/serde", "crates/tx3-tir/src/encoding.rs", "ciborium::from_reader returns Err (never panics/aborts) on arbitrary, truncated or deeply nested bytes: dependency behaviour, not decided here")])
     return res
